@@ -66,6 +66,10 @@ Check (C17_put_provider_spec :
                (spec_put (N.to_nat (max_per_key c)) pr ps) /\
   (forall k', k' <> k -> find_pk k' (pkeys s') = find_pk k' (pkeys s)) /\
   recs s' = recs s /\ locals s' = locals s).
+Check (C17_no_provider_twice :
+  forall (d : N -> N -> N) c h,
+  1 <= max_per_key c -> (forall k a b, d k a = d k b -> a = b) -> history_consistent d h ->
+  Forall (fun kp => NoDup (map p_id (snd kp))) (pkeys (final c h))).
 Check (C17_default_config :
   forall ttl h,
   Inv (mkCfg V.gen.Consts.DEFAULT_MAX_RECORDS V.gen.Consts.DEFAULT_MAX_RECORD_SIZE_BYTES
